@@ -1702,7 +1702,7 @@ func init() {
 				"root_sets":        "{a} full; {} and 5 roots (2-byte header length prefix): reduced sessions x 3 configurations (quick) / 6 (thorough)",
 			}
 		},
-		Assumptions: []string{"crash model = the property's: a prefix of the issued writes with the last one torn (the library issues no syncs, so no reordering dimension)", "a torn write past EOF extends the file only up to the torn length",
+		Assumptions: []string{"a Put that declines a block before issuing any write (for instance a size limit on the write path) is outside the statement, which speaks of puts that returned: outcome beyond-statement:put-refused, the accepted prefix of the session is still enumerated; in a large-block case whose put logs more than 48 writes only the first 12, last 12 and middle 8 writes get the full torn class", "crash model = the property's: a prefix of the issued writes with the last one torn (the library issues no syncs, so no reordering dimension)", "a torn write past EOF extends the file only up to the torn length",
 			"later generations are enumerated only from images the front-end accepts to resume (the refusal of the others is judged by the previous generation's case)",
 			"a refusal at a clean call boundary is allowed by C06 (counted as outcome reopen-refused-at-call-boundary; C12 owns resumability)",
 			"writes of a Finalize call are classed by target offset (below 51 = CARv2 header, else index padding / index), not by their number or order; the class only names signatures (known finding class A)",
